@@ -41,4 +41,7 @@ def get(pid):
     if pid == 'C20':
         from . import cppgen_checks
         return cppgen_checks.check_c20
+    if pid in ('C01', 'C02', 'C04', 'C09', 'C10'):
+        from . import runtime_checks
+        return getattr(runtime_checks, 'check_' + pid.lower())
     raise SystemExit(f'no check registered for {pid}')
